@@ -490,7 +490,10 @@ static void run_cmd(int ntok, char **tok) {
             else if(!strncmp(tok[k], "leadcrlf=", 9)) leadcrlf = atoi(tok[k] + 9);
             else if(!strncmp(tok[k], "forcemulti=", 11)) forcemulti = atoi(tok[k] + 11);
             else if(!strncmp(tok[k], "lower=", 6)) lower = atoi(tok[k] + 6);
+            else if(!strcmp(tok[k], "corrupt=last")) corrupt = -2;            /* the last payload byte of the response */
             else if(!strncmp(tok[k], "corrupt=", 8)) corrupt = atol(tok[k] + 8);
+            else if(!strcmp(tok[k], "stop=mid")) stop = -2;                   /* inside the payload of the last part */
+            else if(!strcmp(tok[k], "stop=end")) stop = -3;                   /* exactly after the payload of the first part */
             else if(!strncmp(tok[k], "stop=", 5)) stop = atol(tok[k] + 5);
             else if(!strncmp(tok[k], "partend=", 8)) partend = atoi(tok[k] + 8);
             else if(!strncmp(tok[k], "cuts=", 5)) snprintf(cutsbuf, sizeof cutsbuf, "%s", tok[k] + 5);
@@ -511,6 +514,8 @@ static void run_cmd(int ntok, char **tok) {
             /* build the response */
             size_t cap = 4096; for(zckRangeItem *it = r->first; it; it = it->next) cap += (it->end - it->start + 1) + 512 + strlen(boundary);
             char *body = malloc(cap); size_t bl = 0; long payload_seen = 0;
+            if(corrupt == -2) { long tot_ = 0; for(zckRangeItem *it = r->first; it; it = it->next) tot_ += (long)(it->end - it->start + 1); corrupt = tot_ - 1; }
+            size_t first_end = 0, last_start = 0, last_len = 0;
             char hdr[1024];
             int multi = nr > 1 || forcemulti;
             for(zckRangeItem *it = r->first; it; it = it->next) {
@@ -523,7 +528,9 @@ static void run_cmd(int ntok, char **tok) {
                 ssize_t got = pread(bfd, body + bl, len, it->start);
                 if(got < (ssize_t)len) memset(body + bl + (got < 0 ? 0 : got), 0, len - (got < 0 ? 0 : got));
                 if(corrupt >= payload_seen && corrupt < payload_seen + (long)len) body[bl + (corrupt - payload_seen)] ^= 1;
+                last_start = bl; last_len = len;
                 payload_seen += len; bl += len;
+                if(it == r->first) first_end = bl;
                 if(partend && strlen(cutsbuf) < sizeof cutsbuf - 32) { char t_[32]; snprintf(t_, sizeof t_, "%s%zu", cutsbuf[0] ? "," : "", bl); strcat(cutsbuf, t_); }
             }
             if(multi) bl += snprintf(body + bl, cap - bl, "\r\n--%s--\r\n", boundary);
@@ -537,6 +544,8 @@ static void run_cmd(int ntok, char **tok) {
             x = strdup(hdr); hret += zck_header_cb(x, 1, strlen(hdr), dl) == strlen(hdr); hcalls++; free(x);
             x = strdup("\r\n"); hret += zck_header_cb(x, 1, 2, dl) == 2; hcalls++; free(x);
             /* body fragments */
+            if(stop == -2) stop = (long)(last_start + last_len / 2);
+            if(stop == -3) stop = (long)first_end;
             size_t total = (stop >= 0 && (size_t)stop < bl) ? (size_t)stop : bl;
             size_t pos = 0; long calls = 0, okcalls = 0; long firstfail = -1; size_t failpos = 0;
             char *cp = cutsbuf; 
